@@ -736,15 +736,9 @@ func (r *Reconciler) reconcileApply(ctx context.Context, proposal *configapi.Pro
 					failureType = configapi.Failure_INTERNAL
 				}
 
-				// Update the Configuration's applied index to indicate this Proposal was applied even though it failed.
-				log.Infof("Updating applied index for Configuration '%s' to %d in term %d", config.ID, proposal.TransactionIndex, config.Status.Mastership.Term)
-				config.Status.Applied.Index = proposal.TransactionIndex
-				if err := r.configurations.UpdateStatus(ctx, config); err != nil {
-					log.Warnf("Failed reconciling Transaction %d Proposal to target '%s'", proposal.TransactionIndex, proposal.TargetID, err)
-					return controller.Result{}, err
-				}
-
-				// Add the failure to the proposal's apply phase state.
+				// Record the failure in the proposal's apply phase state first: if the applied index moved first, a
+				// crash between the two writes would make the restarted controller take the refused change for an
+				// applied one. The applied index is advanced when the FAILED proposal is reconciled.
 				log.Warnf("Failed applying Proposal '%s'", proposal.ID, err)
 				proposal.Status.Phases.Apply.State = configapi.ProposalApplyPhase_FAILED
 				proposal.Status.Phases.Apply.Failure = &configapi.Failure{
@@ -756,7 +750,7 @@ func (r *Reconciler) reconcileApply(ctx context.Context, proposal *configapi.Pro
 				if err := r.updateProposalStatus(ctx, proposal); err != nil {
 					return controller.Result{}, err
 				}
-				return controller.Result{}, nil
+				return controller.Result{Requeue: controller.NewID(proposal.ID)}, nil
 			}
 		}
 		log.Debugf("Received SetResponse %+v", setResponse)
@@ -785,8 +779,35 @@ func (r *Reconciler) reconcileApply(ctx context.Context, proposal *configapi.Pro
 			return controller.Result{}, err
 		}
 		return controller.Result{}, nil
-	case configapi.ProposalApplyPhase_APPLIED, configapi.ProposalApplyPhase_FAILED:
+	case configapi.ProposalApplyPhase_FAILED:
+		configID := configuration.NewID(proposal.TargetID, proposal.TargetType, proposal.TargetVersion)
+		config, err := r.configurations.Get(ctx, configID)
+		if err != nil {
+			if !errors.IsNotFound(err) {
+				return controller.Result{}, err
+			}
+			return controller.Result{}, nil
+		}
+		// Update the Configuration's applied index to indicate this Proposal was applied even though it failed.
+		if config.Status.Applied.Index < proposal.TransactionIndex {
+			if config.Status.Applied.Index != proposal.Status.PrevIndex {
+				return controller.Result{}, nil
+			}
+			log.Infof("Updating applied index for Configuration '%s' to %d in term %d", config.ID, proposal.TransactionIndex, config.Status.Mastership.Term)
+			config.Status.Applied.Index = proposal.TransactionIndex
+			if err := r.configurations.UpdateStatus(ctx, config); err != nil {
+				log.Warnf("Failed reconciling Transaction %d Proposal to target '%s'", proposal.TransactionIndex, proposal.TargetID, err)
+				return controller.Result{}, err
+			}
+		}
 		// a failed apply has advanced the applied index too: the next proposal may proceed
+		if proposal.Status.NextIndex != 0 {
+			return controller.Result{
+				Requeue: controller.NewID(proposalstore.NewID(proposal.TargetID, proposal.Status.NextIndex)),
+			}, nil
+		}
+		return controller.Result{}, nil
+	case configapi.ProposalApplyPhase_APPLIED:
 		if proposal.Status.NextIndex != 0 {
 			return controller.Result{
 				Requeue: controller.NewID(proposalstore.NewID(proposal.TargetID, proposal.Status.NextIndex)),
